@@ -79,6 +79,48 @@ func sweepScenario(sh sweepShape, sizes []int, fileNo int, layer string) *Scenar
 	return s
 }
 
+// TestMagicPrefixSweep: every prefix of magicPrefixes × every length 1..12 and
+// 64, as AAC frames (every AudioSpecificConfig) and as H.264 / H.265 NAL
+// payloads, through packetiser → Writer and Muxer → FlvCache → Writer.
+func TestMagicPrefixSweep(t *testing.T) {
+	evid.Rule("magic-prefix sweep: every pattern of {ADTS FF F1/F9/F0/F8, a full ADTS header, 'ID3', 00 00 00 01, 00 00 01, FF FB, 56 E0, 'FLV\\x01', zeros, FF..} × every payload length 1..12 and 64, as AAC frame (each AudioSpecificConfig) and as H.264 / H.265 NAL payload, key and non-key; both producer paths; tag body must be byte-equal to the source")
+	lengths := []int{1, 2, 3, 4, 5, 6, 7, 8, 9, 10, 11, 12, 64}
+	var n int64
+	for _, codecName := range []string{"H264", "H265"} {
+		for asc := range ascSets {
+			for _, layer := range []string{"packetizer", "muxer"} {
+				s := &Scenario{Layer: layer, Codec: codecName, Audio: true, PS: asc, ASC: asc, Base: "magic"}
+				keyType, min := 5, 1
+				if codecName == "H265" {
+					keyType, min = 19, 2
+				}
+				dts := int64(0)
+				s.Frames = append(s.Frames, Frame{NalType: keyType, NRI: 3, Size: min + 5, Seed: 1})
+				for m := 1; m <= len(magicPrefixes); m++ {
+					for _, l := range lengths {
+						dts += 23 * ms
+						s.Frames = append(s.Frames,
+							Frame{Audio: true, Size: l, Magic: m, Seed: uint32(m*100 + l), Dts: dts, Pts: dts},
+							Frame{NalType: []int{1, keyType}[l&1], NRI: 2, Size: min + l, Magic: m, Seed: uint32(m*100 + l), Dts: dts, Pts: dts})
+					}
+				}
+				if layer == "muxer" {
+					s.Joins = []Join{{At: 0, Mode: "cache"}, {At: 1 + s.configCount() + len(s.Frames)/2, CacheGop: true, Mode: "cache"}}
+				} else {
+					s.Joins = []Join{{At: s.configCount() + len(s.Frames)/2, Mode: "restamp-first"}}
+				}
+				if fl, _ := runScenario(s); fl != nil {
+					evid.Violation(t, "magic-"+fl.Check, s, "magic-prefix sweep %s/%s asc=%s — %s", layer, codecName, s.asc().Name, fl.Msg)
+				}
+				n += int64(len(s.Frames) - 1)
+			}
+		}
+	}
+	evid.Eval(n)
+	evid.NontrivialN(n)
+	evid.ClassN("magic-prefix-sweep:tags", n)
+}
+
 func TestSizeSweep(t *testing.T) {
 	evid.Rule("exhaustive size sweep: every NAL size 1..8300 (H.265: 2..8300) and every size within ±40 of 16384, 32768 and 65536, for H.264 and H.265, key and non-key, and every AAC frame size 1..6144, in files of 300 consecutive sizes, through packetiser → flv.Writer (all) and Muxer → FlvCache → Writer with a mid-file GOP-cache join (every 6th file); same oracle; each (shape, size) tag is counted once as non-trivial (distinct by construction)")
 	var tags, files, muxFiles int64
